@@ -7,6 +7,7 @@ import (
 	"errors"
 	"io"
 	"net"
+	"os"
 	"time"
 
 	"verif/shim/sched"
@@ -80,6 +81,9 @@ type VConn struct {
 	// crosses the next boundary (the following segment "arrives" only after the previous one was consumed).
 	SplitAt  []int
 	consumed int
+	// read deadline (virtual time); zero = none. A timer makes the scheduler's clock reach it.
+	rdl      time.Time
+	rdlTimer interface{}
 }
 
 // Peer returns the other end.
@@ -95,7 +99,9 @@ func (c *VConn) Read(p []byte) (int, error) {
 	if g.Dead() {
 		sched.PanicKilled()
 	}
-	g.Yield("read "+c.name, func() bool { return len(c.in) > 0 || c.closed || c.peer.closed })
+	g.Yield("read "+c.name, func() bool {
+		return len(c.in) > 0 || c.closed || c.peer.closed || (!c.rdl.IsZero() && !g.Now().Before(c.rdl))
+	})
 	if Current != nil {
 		g.AcquireVC(Current.ioSync)
 	}
@@ -122,6 +128,9 @@ func (c *VConn) Read(p []byte) (int, error) {
 	}
 	if c.closed {
 		return 0, net.ErrClosed
+	}
+	if !c.peer.closed && !c.rdl.IsZero() && !g.Now().Before(c.rdl) {
+		return 0, os.ErrDeadlineExceeded
 	}
 	return 0, io.EOF
 }
@@ -170,6 +179,23 @@ func (c *VConn) PeerClosed() bool { return c.peer.closed }
 
 func (c *VConn) LocalAddr() Addr                    { return addr{} }
 func (c *VConn) RemoteAddr() Addr                   { return addr{} }
-func (c *VConn) SetDeadline(t time.Time) error      { return nil }
-func (c *VConn) SetReadDeadline(t time.Time) error  { return nil }
-func (c *VConn) SetWriteDeadline(t time.Time) error { return nil }
+func (c *VConn) SetDeadline(t time.Time) error      { return c.SetReadDeadline(t) }
+func (c *VConn) SetWriteDeadline(t time.Time) error { return nil } // writes never block here
+
+// SetReadDeadline: a Read that finds no data fails with os.ErrDeadlineExceeded once the virtual clock has reached t
+// (zero = no deadline), as net.Conn promises.
+func (c *VConn) SetReadDeadline(t time.Time) error {
+	g := sched.G
+	if g.Dead() {
+		return nil
+	}
+	if c.rdlTimer != nil {
+		sched.StopAny(g, c.rdlTimer)
+		c.rdlTimer = nil
+	}
+	c.rdl = t
+	if !t.IsZero() {
+		c.rdlTimer = g.AddTimer(t, func() {})
+	}
+	return nil
+}
